@@ -247,6 +247,37 @@ pub fn delimit_rr(buf: &[u8], start: usize) -> Result<(usize, u16, u16, u32, usi
     Ok((end, rtype, class, ttl, rdata_start, rdlength))
 }
 
+/// Like `decode_rr`, but RDATA is decoded leniently (see
+/// `rdata::decode_in_message_lenient`): used where the producer is allowed to
+/// pass through RDATA it was given without validating it.
+pub fn decode_rr_lenient(buf: &[u8], start: usize) -> Result<RrDecode, WireErr> {
+    let owner = decode_name(buf, start)?;
+    let p = start + owner.first_chunk_len;
+    let rtype = u16_at(buf, p).ok_or(WireErr::Eom)?;
+    let class = u16_at(buf, p + 2).ok_or(WireErr::Eom)?;
+    let ttl_raw = u32_at(buf, p + 4).ok_or(WireErr::Eom)?;
+    let rdlength = u16_at(buf, p + 8).ok_or(WireErr::Eom)?;
+    let rdata_start = p + 10;
+    let end = rdata_start + rdlength as usize;
+    if end > buf.len() {
+        return Err(WireErr::Eom);
+    }
+    let (rdata, rdata_names) =
+        rdata::decode_in_message_lenient(class, rtype, buf, rdata_start, rdlength as usize).ok_or(WireErr::BadRdata)?;
+    Ok(RrDecode {
+        start,
+        end,
+        owner,
+        rtype,
+        class,
+        ttl_raw,
+        rdata_start,
+        rdlength,
+        rdata,
+        rdata_names,
+    })
+}
+
 /// Fully decodes a record at `start` (owner decompressed, RDATA decoded by type).
 pub fn decode_rr(buf: &[u8], start: usize) -> Result<RrDecode, WireErr> {
     let owner = decode_name(buf, start)?;
@@ -309,6 +340,11 @@ impl MessageDecode {
 
 /// Strict decode of a whole message: header, all counted entries, nothing after.
 pub fn decode_message(buf: &[u8]) -> Result<MessageDecode, WireErr> {
+    decode_message_opts(buf, false)
+}
+
+/// As `decode_message`; with `lenient_rdata` records are decoded with `decode_rr_lenient`.
+pub fn decode_message_opts(buf: &[u8], lenient_rdata: bool) -> Result<MessageDecode, WireErr> {
     let header = decode_header(buf)?;
     let mut pos = 12;
     let mut questions = Vec::new();
@@ -320,7 +356,7 @@ pub fn decode_message(buf: &[u8]) -> Result<MessageDecode, WireErr> {
     let mut sections: [Vec<RrDecode>; 3] = [Vec::new(), Vec::new(), Vec::new()];
     for (i, count) in [header.ancount, header.nscount, header.arcount].iter().enumerate() {
         for _ in 0..*count {
-            let rr = decode_rr(buf, pos)?;
+            let rr = if lenient_rdata { decode_rr_lenient(buf, pos)? } else { decode_rr(buf, pos)? };
             pos = rr.end;
             sections[i].push(rr);
         }
